@@ -329,6 +329,77 @@ class Stop(Exception):
     """event budget exhausted (raised identically on both sides)"""
 
 
+_OPNAMES = ["add", "sub", "mul", "matmul", "truediv", "floordiv", "mod", "pow", "lshift", "rshift", "and", "or", "xor"]
+
+
+def _make_user_values(ev):
+    """User-defined operand classes for augmented assignment: every dunder logs its call.
+    kinds: u_self (in-place method mutates and returns self), u_new (in-place method returns a new
+    object), u_notimpl (in-place method returns NotImplemented, binary method works), u_noiop (no
+    in-place method), u_reflected (only reflected methods), u_allnotimpl (in-place and binary both
+    return NotImplemented)."""
+    classes = {}
+
+    class UPlain:
+        def __init__(self, tag):
+            self.tag = tag
+
+    def ensure():
+        if not classes:
+            for k in ("u_self", "u_new", "u_notimpl", "u_noiop", "u_reflected", "u_allnotimpl"):
+                classes[k] = build(k)
+
+    def build(kind):
+        ns = {}
+
+        def __init__(self, tag):
+            self.tag = tag
+
+        ns["__init__"] = __init__
+
+        def tagof(o):
+            return getattr(o, "tag", o)
+
+        for name in _OPNAMES:
+
+            def mk(name):
+                def iop(self, other, *m):
+                    ev(("call", "__i%s__" % name, canon(self.tag), canon(tagof(other))))
+                    if kind == "u_self":
+                        self.tag = (self.tag, "i" + name, tagof(other))
+                        return self
+                    if kind == "u_new":
+                        return classes[kind]((self.tag, "i" + name, tagof(other)))
+                    return NotImplemented
+
+                def op(self, other, *m):
+                    ev(("call", "__%s__" % name, canon(self.tag), canon(tagof(other))))
+                    if kind == "u_allnotimpl":
+                        return NotImplemented
+                    return classes[kind]((self.tag, name, tagof(other)))
+
+                def rop(self, other, *m):
+                    ev(("call", "__r%s__" % name, canon(self.tag), canon(tagof(other))))
+                    return classes[kind]((tagof(other), "r" + name, self.tag))
+
+                return iop, op, rop
+
+            iop, op, rop = mk(name)
+            if kind in ("u_self", "u_new", "u_notimpl", "u_allnotimpl"):
+                ns["__i%s__" % name] = iop
+            if kind in ("u_self", "u_new", "u_notimpl", "u_noiop", "u_allnotimpl"):
+                ns["__%s__" % name] = op
+            if kind == "u_reflected":
+                ns["__r%s__" % name] = rop
+        return _real_type("UV_" + kind, (), ns)
+
+    def UV(kind, tag):
+        ensure()
+        return classes[kind](tag)
+
+    return UV, UPlain
+
+
 class Env:
     """One run of one side.  `inputs` maps parameter names to (possibly symbolic) values:
     B  -- schedule of condition outcomes consumed by cond(); False when exhausted
@@ -392,6 +463,31 @@ class Env:
                 self.k += 1
                 return self.k
 
+        class Box:
+            """logging container / attribute holder: counts loads and stores"""
+
+            def __init__(self):
+                object.__setattr__(self, "_d", {})
+
+            def __getitem__(self, k):
+                ev(("getitem", canon(k)))
+                return self._d[k]
+
+            def __setitem__(self, k, v):
+                ev(("setitem", canon(k)))
+                self._d[k] = v
+
+            def __setattr__(self, n, v):
+                ev(("setattr", n))
+                object.__setattr__(self, n, v)
+
+            def __getattribute__(self, n):
+                if not n.startswith("_"):
+                    ev(("getattr", n))
+                return object.__getattribute__(self, n)
+
+        UV, UPlain = _make_user_values(ev)
+
         def rec_print(*a, **kw):
             ev(("print", tuple(canon(x) for x in a), tuple(sorted((k, canon(v)) for k, v in kw.items()))))
 
@@ -400,7 +496,7 @@ class Env:
             bi = dict(builtins.__dict__)
             g["__builtins__"] = bi
             g["__name__"] = "__main__"
-            helpers = {"log": log, "mark": mark, "cond": cond, "probe": probe, "It": It}
+            helpers = {"log": log, "mark": mark, "cond": cond, "probe": probe, "It": It, "Box": Box, "UV": UV, "UPlain": UPlain}
             helpers["print"] = real_print if real_print is not None else rec_print
             g.update(helpers)
             if extra:
